@@ -9,5 +9,6 @@ import (
 func TestMain(m *testing.M) {
 	vh.Main(map[string]vh.CheckFunc{
 		"C17mcrew": C17mcrew,
+		"C16":      C16,
 	})
 }
